@@ -150,6 +150,13 @@ func runC04(t *testing.T, x c04Scn, verbose bool) vfCase {
 					if md.ZeroChecksumReceivingEnabled != x.ZC[i] {
 						c.fail("zero-checksum-direction", "%s: side %d accepts zero checksums=%v, option %v", when, i, md.ZeroChecksumReceivingEnabled, x.ZC[i])
 					}
+					// a handshake timer that survives establishment ends, once its retry budget is used up,
+					// in completeHandshake() with nobody listening: the association freezes with its lock
+					// held. Report the cause directly (shrinkable) instead of waiting for the watchdog.
+					if s.as[i].t1Init.isRunning() || s.as[i].t1Cookie.isRunning() {
+						c.fail("handshake-timer-left-running", "%s: side %d is established but a handshake retransmission timer is still running (T1-init=%v T1-cookie=%v)",
+							when, i, s.as[i].t1Init.isRunning(), s.as[i].t1Cookie.isRunning())
+					}
 				}
 			}
 			check("after handshake")
@@ -228,11 +235,10 @@ func runC04(t *testing.T, x c04Scn, verbose bool) vfCase {
 	return c
 }
 
-func genC04(rt *rapid.T) c04Scn {
-	x := c04Scn{Mode: rapid.SampledFrom([]string{"", "", "cc", "cc", "snap"}).Draw(rt, "mode"), First: rapid.IntRange(0, 1).Draw(rt, "first"),
-		StartMs: rapid.SampledFrom([]int{0, 0, 1, 10, 20, 500, 1000, 1500, 3100}).Draw(rt, "startoff")}
-	c04Config(rapid.IntRange(0, 15).Draw(rt, "cfg"), &x)
-	x.TSN = [2]uint32{genTSN(rt, "tsna", 8448), genTSN(rt, "tsnb", 8448)}
+// genC04Faults: dense fault schedules over the first packets of each direction that still
+// leave every retransmitted packet a clean chance: never more than 5 consecutive faulted
+// packets of one direction.
+func genC04Faults(rt *rapid.T) (fs [][3]int) {
 	// denser schedules that still leave every retransmitted packet a clean chance: never fault
 	// more than 5 consecutive packets of one direction
 	nf := rapid.IntRange(0, 8).Draw(rt, "nf")
@@ -257,8 +263,17 @@ func genC04(rt *rapid.T) c04Scn {
 			continue
 		}
 		used[[2]int{side, idx}] = true
-		x.F = append(x.F, [3]int{side, idx, rapid.IntRange(1, 3).Draw(rt, "fkind")})
+		fs = append(fs, [3]int{side, idx, rapid.IntRange(1, 3).Draw(rt, "fkind")})
 	}
+	return fs
+}
+
+func genC04(rt *rapid.T) c04Scn {
+	x := c04Scn{Mode: rapid.SampledFrom([]string{"", "", "cc", "cc", "snap"}).Draw(rt, "mode"), First: rapid.IntRange(0, 1).Draw(rt, "first"),
+		StartMs: rapid.SampledFrom([]int{0, 0, 1, 10, 20, 500, 1000, 1500, 3100}).Draw(rt, "startoff")}
+	c04Config(rapid.IntRange(0, 15).Draw(rt, "cfg"), &x)
+	x.TSN = [2]uint32{genTSN(rt, "tsna", 8448), genTSN(rt, "tsnb", 8448)}
+	x.F = genC04Faults(rt)
 	if rapid.Bool().Draw(rt, "stale") {
 		n := rapid.IntRange(1, 3).Draw(rt, "nstale")
 		for i := 0; i < n; i++ {
